@@ -643,6 +643,21 @@ fn signature(ws: &mut Ws, t0: &LuaType) -> (String, LuaType) {
             break;
         }
     }
+    // the two recorded union classes come first: they do not depend on what the members contain
+    if let LuaType::Union(u) = &culprit {
+        let ms = u.into_vec();
+        let js: Vec<String> = ms.iter().map(|m| canon(&ty_json(m)).to_string()).collect();
+        let mut d = js.clone();
+        d.sort();
+        d.dedup();
+        let non_nil: Vec<&LuaType> = ms.iter().filter(|m| !m.is_nil()).collect();
+        if non_nil.len() == 1 && matches!(non_nil[0], LuaType::Any | LuaType::Unknown | LuaType::Never) {
+            return ("union-with-any-unknown-never".to_string(), culprit);
+        }
+        if d.len() < js.len() {
+            return ("union-with-duplicate-members".to_string(), culprit);
+        }
+    }
     // strings (literals and record keys) whose escaping can derail the lexer anywhere after them
     let mut strs: Vec<String> = Vec::new();
     {
